@@ -134,6 +134,7 @@ type vfC02MuxRun struct {
 	// fatal for the muxer) or go on untouched; errors are allowed from here on, garbling never
 	loose atomic.Bool
 	cut   func(now bool) // armed cut of the connection (now: fire it at once)
+	sleep func(class string) time.Duration
 	log   []any
 }
 
@@ -143,7 +144,7 @@ func (r *vfC02MuxRun) mismatch(step int, class, what string, exp, got any) {
 	if r.abandoned.Load() && class != "mux-stall" {
 		return // the watchdog tore the sessions down: what the walk sees from then on is the harness's doing
 	}
-	if r.loose.Load() && class != "mux-bytes" && class != "mux-panic" && class != "MACHINERY" && class != "mux-stall" && class != "mux-truncated-eof" {
+	if r.loose.Load() && class != "mux-bytes" && class != "mux-panic" && class != "MACHINERY" && class != "mux-stall" && class != "mux-truncated-eof" && class != "mux-truncated-eof-with-data" {
 		return // after a glitch of the connection only garbling counts (errors, resets, early EOF are allowed)
 	}
 	r.mu.Lock()
@@ -275,15 +276,21 @@ func (r *vfC02MuxRun) body(addCloser func(func())) {
 			// END OF STREAM: a clean end is io.EOF itself (what io.ReadAll / io.Copy take for "complete"); an error
 			// that merely wraps io.EOF is an error
 			if err == io.EOF && c.closed && c.led.Delivered+n == c.led.Written {
-				c.eof, c.done = true, true // the last bytes and the end of the stream in one call
-				err = nil
+				c.eof, c.done = true, true // (possibly the last bytes and the end of the stream in one call)
+				return !l1(si, c, c.led.OnRead(buf[:b], n, nil, true))
 			}
 			if err == io.EOF {
 				if n > 0 {
 					l1(si, c, c.led.OnRead(buf[:b], n, nil, true))
 				}
 				c.done = true
-				r.mismatch(si, "mux-truncated-eof", fmt.Sprintf("%s: the stream ended CLEANLY (io.EOF) after %d bytes although %d were written (CloseWrite issued: %v): the reader cannot tell it from a complete one", c.name, c.led.Delivered, c.led.Written, c.closed), "error, or EOF after everything", "io.EOF")
+				cls := "mux-truncated-eof"
+				if n > 0 {
+					// (bytes and io.EOF in one call: go-yamux hands the error of its window update - the session's
+					// terminating error, a bare io.EOF when the connection ended with EOF - out with the data)
+					cls = "mux-truncated-eof-with-data"
+				}
+				r.mismatch(si, cls, fmt.Sprintf("%s: the stream ended CLEANLY (io.EOF) after %d bytes although %d were written (CloseWrite issued: %v): the reader cannot tell it from a complete one", c.name, c.led.Delivered, c.led.Written, c.closed), "error, or EOF after everything", "io.EOF")
 				return false
 			}
 			if l1(si, c, c.led.OnRead(buf[:b], n, err, false)) {
@@ -326,6 +333,14 @@ func (r *vfC02MuxRun) body(addCloser func(func())) {
 		steps++
 		switch op.Name() {
 		case "pump":
+		case "wait":
+			// (virtual) time passes between two operations: keep-alives, round-trip measurements and write timeouts
+			// of the muxer come and go, the streams stay what they were
+			if r.sleep != nil {
+				d := r.sleep(op.S("c"))
+				r.note(map[string]any{"op": "wait", "class": op.S("c"), "slept": d.String()})
+				r.res.Case("wait/" + op.S("c"))
+			}
 		case "glitch":
 			// the connection that carries direction d glitches at its next read / write
 			w := cb.In // a -> b
@@ -550,8 +565,24 @@ func TestVerifC02Mux(t *testing.T) {
 		t.Fatal(err)
 	}
 	rounds := vfh.EnvInt("VERIF_C02_ROUNDS", 1)
-	share := vfh.EnvInt("VERIF_C02_MUX_SHARE", 3)
-	par := vfh.EnvInt("VERIF_C02_MUX_PAR", 12)
+	if err := vfC02MuxReplay(res, files, a, b, vfh.EnvInt("VERIF_C02_MUX_SHARE", 3), vfh.EnvInt("VERIF_C02_MUX_PAR", 12), nil); err != nil {
+		t.Fatal(err)
+	}
+	for i, stack := range []string{"plain", "noise", "tls"} {
+		for rep := 0; rep < rounds; rep++ {
+			vfC02MuxStress(res, stack, a, b, uint64(vfh.Seed())*1000+uint64(i*100+rep))
+		}
+	}
+}
+
+// vfC02MuxReplay runs the walks of the files (one in `share`); sleep != nil: the harness runs in a synctest bubble
+// and the walks' wait steps sleep virtual time.
+func vfC02MuxReplay(res *vfh.Result, files []string, a, b *vfC02SecPeer, share, par int, sleep func(string) time.Duration) error {
+	rounds := vfh.EnvInt("VERIF_C02_ROUNDS", 1)
+	w1, w2 := 20*time.Second, 40*time.Second
+	if sleep != nil {
+		w1, w2 = 10000*time.Hour, 10000*time.Hour // (virtual: they fire only when every goroutine is blocked for good)
+	}
 	type job struct {
 		f     string
 		w     vfh.Walk
@@ -566,13 +597,13 @@ func TestVerifC02Mux(t *testing.T) {
 			defer wg.Done()
 			for j := range ch {
 				mk := func() *vfC02MuxRun {
-					return &vfC02MuxRun{res: res, file: j.f, w: j.w, stack: j.stack, a: a, b: b,
+					return &vfC02MuxRun{res: res, file: j.f, w: j.w, stack: j.stack, a: a, b: b, sleep: sleep,
 						pick: vfc02.Picker{Seed: uint64(vfh.Seed()), Round: j.rd}}
 				}
 				if vfC02Stalled.Load() {
 					continue // a reproduced stall has been reported: the rest would only wait for watchdogs
 				}
-				if mk().run(20 * time.Second) {
+				if mk().run(w1) {
 					// bytes handed to Write never arrived within the watchdog: a violation only if it reproduces
 					res.Inc("mux_stalls", 1)
 					if vfC02Stalls.Add(1) > 3 && !vfC02Stalled.Swap(true) {
@@ -581,7 +612,7 @@ func TestVerifC02Mux(t *testing.T) {
 						continue
 					}
 					r2 := mk()
-					if r2.run(40*time.Second) && !vfC02Stalled.Swap(true) {
+					if r2.run(w2) && !vfC02Stalled.Swap(true) {
 						r2.mismatch(len(j.w.Steps), "mux-stall", "bytes handed to Write did not reach the reader (the walk stalled twice)", "delivery", "stall")
 					}
 				}
@@ -593,7 +624,7 @@ func TestVerifC02Mux(t *testing.T) {
 	for _, f := range files {
 		_, walks, err := vfh.LoadWalks(f)
 		if err != nil {
-			t.Fatal(err)
+			return err
 		}
 		for rd := 0; rd < rounds; rd++ {
 			for _, w := range walks {
@@ -606,11 +637,7 @@ func TestVerifC02Mux(t *testing.T) {
 	}
 	close(ch)
 	wg.Wait()
-	for i, stack := range []string{"plain", "noise", "tls"} {
-		for rep := 0; rep < rounds; rep++ {
-			vfC02MuxStress(res, stack, a, b, uint64(vfh.Seed())*1000+uint64(i*100+rep))
-		}
-	}
+	return nil
 }
 
 // vfC02MuxStress: several streams, every direction of every stream with its own writer and reader goroutine
